@@ -184,6 +184,12 @@ hwloc_synthetic_process_indexes(struct hwloc_synthetic_backend_data_s *data,
 	loops[cur_loop].nb = nb;
 	if (step < minstep)
 	  minstep = step;
+	if (nb > total / nbs) {
+	  if (verbose)
+	    fprintf(stderr, "Invalid index interleaving total width larger than %lu at '%s'\n", total, tmp);
+	  free(loops);
+	  goto out_with_array;
+	}
 	nbs *= nb;
 	cur_loop++;
 	if (*tmp3 == ')' || *tmp3 == ' ')
@@ -643,6 +649,12 @@ hwloc_backend_synthetic_init(struct hwloc_synthetic_backend_data_s *data,
       goto error;
     }
 
+    if (totalarity > ULONG_MAX / item) {
+      if (verbose)
+	fprintf(stderr,"Too many objects in synthetic string at '%s'\n", pos);
+      errno = EINVAL;
+      goto error;
+    }
     totalarity *= item;
     data->level[count].totalwidth = totalarity;
     data->level[count].indexes.string = NULL;
